@@ -80,6 +80,7 @@ type Exec struct {
 	elideCache map[*ssa.BasicBlock]*ssa.BasicBlock
 	assertedSites map[string]bool
 	covers int
+	callCovers map[string]int
 	loopHeapNames map[*ssa.BasicBlock]map[string]bool
 	fresh map[string]bool
 }
@@ -2398,6 +2399,9 @@ func (x *Exec) closureCreated(st *State, in ssa.Instruction, fv *FuncVal) {
 			if p, ok := b.(*Ptr); ok {
 				val, t := x.load(st, p)
 				vars[fv.Fn.FreeVars[i].Name()] = TV{V: val, T: t, S: x.prog.sortOf(t)}
+				if bn := x.prog.baseFreeVarName(fv.Fn, i); bn != "" {
+					vars[bn] = vars[fv.Fn.FreeVars[i].Name()]
+				}
 			}
 		}
 	}
